@@ -86,12 +86,13 @@ func C16() int {
 		}
 		payload := map[string][]byte{}
 		var names []string
-		var gzs [][]byte
+		var gzs, raws [][]byte
 		for hi, h := range cf.hosts {
-			_, z := atlasPayload(gg, hi, cf.lines[hi], cf.members)
+			raw, z := atlasPayload(gg, hi, cf.lines[hi], cf.members)
 			nm := stripPort(h)
 			names = append(names, nm)
 			gzs = append(gzs, z)
+			raws = append(raws, raw)
 			payload[nm] = z
 		}
 		mk := func() *atlasfake.Server {
@@ -238,12 +239,12 @@ func C16() int {
 		// <out>.<i> == redaction of host i's log under the active flags
 		for i := range names {
 			got, err := os.ReadFile(fmt.Sprintf("%s.%d", outp, i))
-			want, okw := expectRedaction(s, cf.flags, gzs[i])
+			want, okw := expectRedaction(s, cf.flags, raws[i])
 			c.Count("output_files_compared", 1)
 			if err != nil || !okw || !bytes.Equal(got, want) {
 				which := "other content"
 				for j := range names {
-					if w2, _ := expectRedaction(s, cf.flags, gzs[j]); j != i && bytes.Equal(got, w2) && len(got) > 0 {
+					if w2, _ := expectRedaction(s, cf.flags, raws[j]); j != i && bytes.Equal(got, w2) && len(got) > 0 {
 						which = fmt.Sprintf("the redaction of host %d (%s)", j, names[j])
 					}
 				}
